@@ -670,8 +670,15 @@ func (e *Engine) VerifyFunc(key string) {
 		e.failObligation(fc.name("attach", "results"), "attach", shortKey(key), "contract result list matches", fmt.Sprintf("contract names %d results, function has %d", len(con.Results), nres))
 		return
 	}
+	fc.renumberLoops(con, shortKey(key))
 	for n, ls := range con.Loops {
-		if n < 1 || n > len(fc.loopLst) {
+		if n > len(fc.loopLst) {
+			// a loop clause without a loop is unused text: the postconditions are still proved from what the
+			// function does now (for instance a loop replaced by a library call that has a contract)
+			e.note(fmt.Sprintf("%s: contract has a clause for loop %d, function has %d loops; the clause is unused", shortKey(key), n, len(fc.loopLst)))
+			continue
+		}
+		if n < 1 {
 			e.failObligation(fc.name("attach", fmt.Sprintf("loop%d", n)), "attach", shortKey(key), "loop exists", fmt.Sprintf("contract refers to loop %d, function has %d loops", n, len(fc.loopLst)))
 			return
 		}
@@ -891,4 +898,59 @@ func renameIdents(s string, m map[string]string) string {
 		}
 		return t
 	})
+}
+
+
+// renumberLoops: loop clauses are keyed by the ordinal the loop had when the contract was written and
+// carry that loop's header text. When the loops of the function have been reordered (a block moved up
+// or down), the ordinals no longer fit but the headers still do: if every clause's header text picks
+// exactly one loop and every loop is picked once, the loops take the clause's numbers. Anything less
+// clear-cut leaves the numbering alone (the invariants are then checked against the loops they land on).
+func (fc *funcCtx) renumberLoops(con *FuncContract, who string) {
+	if len(con.Loops) != len(fc.loopLst) || len(fc.loopLst) < 2 {
+		return
+	}
+	fits := func(ls *LoopSpec, l *Loop) bool {
+		return ls.Fingerprint != "" && (strings.HasPrefix(l.Header, ls.Fingerprint) || strings.HasPrefix(l.Header, renameIdents(ls.Fingerprint, fc.rename)))
+	}
+	identity := true
+	for n, ls := range con.Loops {
+		if n < 1 || n > len(fc.loopLst) {
+			return
+		}
+		if !fits(ls, fc.loopLst[n-1]) {
+			identity = false
+		}
+	}
+	if identity {
+		return
+	}
+	assign := map[*Loop]int{}
+	for n, ls := range con.Loops {
+		var hit *Loop
+		for _, l := range fc.loopLst {
+			if fits(ls, l) {
+				if hit != nil {
+					return // ambiguous
+				}
+				hit = l
+			}
+		}
+		if hit == nil {
+			return
+		}
+		if _, dup := assign[hit]; dup {
+			return
+		}
+		assign[hit] = n
+	}
+	var moved []string
+	for _, l := range fc.loopLst {
+		if assign[l] != l.Ordinal {
+			moved = append(moved, fmt.Sprintf("%d->%d", l.Ordinal, assign[l]))
+		}
+		l.Ordinal = assign[l]
+	}
+	sort.Slice(fc.loopLst, func(i, j int) bool { return fc.loopLst[i].Ordinal < fc.loopLst[j].Ordinal })
+	fc.e.note(fmt.Sprintf("%s: loops were reordered since the contract was written; matched by header text (position->clause %v)", who, moved))
 }
